@@ -109,3 +109,4 @@ CFG['rule'] = CFG['rule'] + ' ' + "The stream on curateFailedPoints has requests
 
 CFG['rule'] = CFG['rule'] + ' ' + 'CPass: on a collection that lives in one shard, a composite of a weighted vector sub-query and a filter (no sort keys, no paging) is asked at the cluster and at the shard before every group of searches: same points, same order (code 109).'
 CFG['rule'] = CFG['rule'] + ' ' + 'Every node lists the same servers starting with itself (placement must be a function of the set). Three histories of four give the collection name an earlier life on the same cluster (created, filled to the same shard count, searched through every node, deleted). A request of this scaffolding that fails on a healthy cluster is recorded as an observation (CUnexpected, codes 121..127), not as a harness failure.'
+CFG['rule'] = CFG['rule'] + ' ' + 'One history in four has the all-zero / all-ones uuid in its id pool; the previous search answer of a history is re-checked after the next search (code 128).'
